@@ -7,3 +7,9 @@ claim("C03",
       "modelled view equals the corresponding function of the one logical column abs p; the correspondence check runs all views "
       "of the real object on ~13 layout recipes and compares them with model and spec inside coqc.",
       NOTE, "Coq proof (refinement physical model -> logical spec) + correspondence check", "DESIGN.md 6/C03")
+
+claim("C05",
+      "Correspondence: every selection / take / concat / copy / dropna / pickle / element-assignment form is run on the real array in 11 "
+      "layouts and compared three ways (Coq model, Coq spec = Python sequence semantics, a plain Python list); frame-level row moves keep "
+      "each nested table with its base id. Theorems (Props/C05.v) cover the index arithmetic of the model (see file).",
+      NOTE, "Coq proof (sequence semantics of the model) + three-way correspondence check", "DESIGN.md 6/C05")
